@@ -860,6 +860,14 @@ func c14Classify(e *c14Env, rec map[string]interface{}, exp, obs []interface{}) 
 	case ft["frontier"]:
 		return "C14:pattern:frontier"
 	}
+	// a '%x' escape whose single-byte membership differs from lstrlib's match_class
+	if e != nil {
+		for _, x := range c14Escapes(p) {
+			if e.escDiffers(x) {
+				return "C14:pattern:escape-membership:" + c14EscKind(x)
+			}
+		}
+	}
 	switch fn {
 	case "gmatch":
 		if len(p) > 0 && p[0] == '^' {
@@ -1083,4 +1091,77 @@ func (e *c14Env) setDiffers(set []byte) bool {
 		}
 	}
 	return false
+}
+
+// the bytes x of the '%x' escapes of a pattern (outside and inside sets);
+// digits (back-references), %b and %f outside sets are not single-byte escapes
+func c14Escapes(p []byte) []byte {
+	out := []byte{}
+	seen := map[byte]bool{}
+	inset := false
+	for i := 0; i < len(p); i++ {
+		switch {
+		case p[i] == '%' && i+1 < len(p):
+			x := p[i+1]
+			i++
+			if !inset && (x == 'b' || x == 'f' || (x >= '0' && x <= '9')) {
+				if x == 'b' {
+					i += 2
+				}
+				continue
+			}
+			if !seen[x] {
+				seen[x] = true
+				out = append(out, x)
+			}
+		case p[i] == '[' && !inset:
+			inset = true
+			if i+1 < len(p) && p[i+1] == '^' {
+				i++
+			}
+			if i+1 < len(p) && p[i+1] == ']' {
+				i++
+			}
+		case p[i] == ']' && inset:
+			inset = false
+		}
+	}
+	return out
+}
+
+func c14EscKind(x byte) string {
+	switch {
+	case strings.IndexByte("acdlpsuwxz", x) >= 0:
+		return "lower-class-letter"
+	case strings.IndexByte("ACDLPSUWXZ", x) >= 0:
+		return "upper-class-letter"
+	case x >= 'a' && x <= 'z':
+		return "lower-non-class-letter"
+	case x >= 'A' && x <= 'Z':
+		return "upper-non-class-letter"
+	case x >= 128:
+		return "high-byte"
+	case x < 32 || x == 127:
+		return "control-byte"
+	}
+	return "punctuation"
+}
+
+var c14EscCache sync.Map // byte -> bool
+
+// true iff the real matcher's membership for "%x" (as the set "[%x]") differs from match_class
+func (e *c14Env) escDiffers(x byte) bool {
+	if v, ok := c14EscCache.Load(x); ok {
+		return v.(bool)
+	}
+	d := false
+	pat := []byte{'[', '%', x, ']'}
+	for c := 0; c < 256 && !d; c++ {
+		o := e.runFind([]byte{byte(c)}, pat, nil)
+		if (o[0] != "m" && o[0] != "nil") || (o[0] == "m") != c14RefClass(byte(c), x) {
+			d = true
+		}
+	}
+	c14EscCache.Store(x, d)
+	return d
 }
